@@ -118,6 +118,12 @@ fn positions() -> Vec<Pos> {
         out.push(Pos { name: "key data length beside a protected algorithm", ty: Ty::SuppPub, template: Item::Array(vec![ph(), prot.clone()]), interpreting: true });
         out.push(Pos { name: "key data length beside a protected algorithm (KDF context)", ty: Ty::Kdf, template: kdf(Item::int(a), pn.clone(), pn.clone(), Item::Array(vec![ph(), prot, Item::Bytes(vec![1])])), interpreting: true });
     }
+    // the same identity and the same nonce in both party-info triples (two parties may well agree on them)
+    let party_id = |x: Item| Item::Array(vec![Item::Bytes(vec![0x1d]), x, Item::Null]);
+    out.push(Pos { name: "kdf party U and V with the same identity and nonce", ty: Ty::Kdf, template: kdf(Item::int(-25), party_id(ph()), party_id(ph()), s16.clone()), interpreting: true });
+    // a timestamp under the epoch-time tag is not an integer any more (tag 1 is not looked through)
+    out.push(Pos { name: "exp under tag 1", ty: Ty::Claims, template: m(vec![(Item::int(4), Item::Tag(1, Box::new(ph())))]), interpreting: true });
+    out.push(Pos { name: "iat under tag 1", ty: Ty::Claims, template: m(vec![(Item::int(6), Item::Tag(1, Box::new(ph()))), (Item::int(7), Item::Bytes(vec![]))]), interpreting: true });
     // two different integers as keys of one map (n and n + 1): neither may shadow the other
     out.push(Pos { name: "header labels n and n+1", ty: Ty::Header, template: m(vec![(ph(), Item::Null), (ph_next(), Item::Null)]), interpreting: true });
     out.push(Pos { name: "key labels n and n+1", ty: Ty::Key, template: m(vec![(ph(), Item::Null), (Item::int(1), Item::int(2)), (ph_next(), Item::Null)]), interpreting: true });
